@@ -136,7 +136,10 @@ def r2_3_layouts(ctx, prog, rule="R2.3"):
                 k = repr(bytesem.flatten_elems(_unconv(a[1])))
                 if k in bounds and got == 1 and isinstance(a[0], tuple) and a[0][0] == "RangeInclusive::new":
                     bounds[k] = [a[0][1], a[0][2]]
+        FLIP = {"Lt": "Gt", "Le": "Ge", "Gt": "Lt", "Ge": "Le"}
         for op, a, b, v in pa.guards():
+            if isinstance(a, int) and not isinstance(b, int) and op in FLIP:
+                op, a, b = FLIP[op], b, a                   # `3 <= class` is `class >= 3`
             k = repr(bytesem.flatten_elems(_unconv(a)))
             if k in bounds and isinstance(b, int):
                 if (op, v) in (("Gt", 0), ("Le", 1)):
@@ -292,22 +295,23 @@ AP = "stun_rs::attributes::address_port::"
 
 
 def _byte_reads(pa, base="top:buffer"):
-    """(lo, hi) byte ranges of `base` read on this path: range indexing calls and single-element reads appearing in
-    switches, comparisons, call arguments and the result"""
+    """(lo, hi) byte ranges of `base` whose contents reach a computation on this path: a sub-slice handed whole to another
+    call (reader, copy source, comparison) counts as its range; a sub-slice that is only indexed further counts as the
+    elements / sub-ranges actually taken from it; single-element reads appearing in switches, comparisons, call arguments
+    and the result count as one byte"""
     out = set()
-    for e in pa.calls:
+    texts = [pa.switches(), pa.guards(), C.expr_of(pa, pa.ret)]
+    for i, e in enumerate(pa.calls):
         a = C.expr_of(pa, e[2])
-        if re.search(r"::index$", e[1]) and a and a[0] == base and isinstance(a[1], tuple):
-            r = a[1]
-            if r[0] == "Range":
-                out.add((r[1], r[2]))
-            elif r[0] == "RangeTo":
-                out.add((0, r[1]))
-            elif r[0] == "RangeFrom":
-                out.add((r[1], None))
-            elif r[0] == "RangeInclusive::new":
-                out.add((r[1], r[2] + 1 if isinstance(r[2], int) else None))
-    txt = repr([pa.switches(), pa.guards(), [C.expr_of(pa, e[2]) for e in pa.calls], C.expr_of(pa, pa.ret)])
+        if re.search(r"::index$|::get$|split_at$", e[1]):
+            continue                        # producing a view reads nothing by itself
+        texts.append(a)
+        for x in a:
+            v = bytesem.slice_view(x, base)
+            if v is not None and x != base and (v != (0, None)):
+                out.add(v)
+    flat = bytesem.flatten_views(texts, base)
+    txt = repr(flat)
     for m in re.finditer(re.escape(base) + r"\[(\d+)\]", txt):
         out.add((int(m.group(1)), int(m.group(1)) + 1))
     return out
@@ -361,8 +365,8 @@ def r2_6_address_layout(ctx, prog, rule="R2.6"):
     ctx.fn(info["body"])
     n = 0
     for pa in paths:
-        r = C.expr_of(pa, pa.ret)
-        sw = pa.switches()
+        r = bytesem.flatten_views(C.expr_of(pa, pa.ret))
+        sw = bytesem.flatten_views(pa.switches())
         reads = _byte_reads(pa)
         if any(lo == 0 for lo, hi in reads):
             ctx.ob(rule, "reader:reserved-byte:%s" % (sw[-1][1] if sw else "-"), False,
@@ -682,7 +686,11 @@ def r2_13_xor_addresses(ctx, prog, rule="R2.13"):
             if e[0] == "write-elem" and len(e[2]) == 1:
                 m = re.match(r"\[(\d+)\]$", str(e[2][0]))
                 v = C.expr_of(pa, e[3], 0, i)
-                if m and isinstance(v, tuple) and v[0] == "op:BitXor" and isinstance(v[1], str) and v[1].endswith("[%s]" % m.group(1)) and "octets" in v[1]:
+                # octet[i] ^= mask: the element read back is `octets[i]` (a label, or (octets expression, "[i]"))
+                elem_ok = m and isinstance(v, tuple) and v[0] == "op:BitXor" and (
+                    (isinstance(v[1], str) and v[1].endswith("[%s]" % m.group(1)) and "octets" in v[1]) or
+                    (isinstance(v[1], tuple) and len(v[1]) == 2 and v[1][1] == "[%s]" % m.group(1) and "octets" in repr(v[1][0])))
+                if elem_ok:
                     masks.setdefault(int(m.group(1)), []).append(v[2])
                 else:
                     probs.append("octet write %s := %s" % (e[2], show(v)[:80]))
